@@ -9,4 +9,4 @@ for c in "$@"; do
 done
 git -C /repo checkout -- . 
 git -C /repo status --short | grep -v _build
-python3 -c "import sys; sys.path.insert(0,\"/verif/harness\"); import srctables; srctables.regenerate(\"/repo\",\"/verif/coq\")"
+python3 -c "import sys; sys.path.insert(0,\"/verif/harness\"); import srctables; srctables.regenerate(\"/repo\",\"/verif/coq\"); import srcexprs; srcexprs.regenerate(\"/repo\",\"/verif/coq\")"
